@@ -24,7 +24,7 @@ import random
 import subprocess
 import warnings
 
-sys.path.insert(0, '/repo')
+sys.path.insert(0, os.environ.get('RSOME_REPO', '/repo'))
 import numpy as np                      # noqa: E402
 import scipy.sparse as sp               # noqa: E402
 import rsome as rso                     # noqa: E402
